@@ -16,6 +16,8 @@ import (
 	"os"
 	"path/filepath"
 	"runtime"
+	"runtime/debug"
+	"runtime/pprof"
 	"strconv"
 	"strings"
 	"syscall"
@@ -164,6 +166,9 @@ func sweepFamily(tier string) *core.Family {
 			src := p.source()
 			s := newSweeper(p.sig(), src, localRunner("p", src))
 			sum := s.run()
+			if os.Getenv("C06_DEBUG") != "" {
+				fmt.Fprintf(os.Stderr, "T=%d small=%v runs=%d states=%d\n", sum.T, sum.small, s.trans, len(s.states))
+			}
 			return s.outcome(sum)
 		},
 	}
@@ -194,6 +199,7 @@ func xctxFamily(tier string) *core.Family {
 				return &r
 			}
 			s := newSweeper("prog="+p.name, p.src, runAt)
+			s.fam = "xctx"
 			// no context at all: the baseline behaviour of the program
 			base := runAt(0)
 			s.trans++
@@ -248,6 +254,11 @@ func main() {
 		subMain()
 		return
 	}
+	if pf := os.Getenv("C06_PROF"); pf != "" {
+		f, _ := os.Create(pf)
+		pprof.StartCPUProfile(f)
+		defer pprof.StopCPUProfile()
+	}
 	core.Main(&core.Check{
 		ID:    "C06",
 		Level: "model_checking",
@@ -264,6 +275,11 @@ func main() {
 		},
 		Init: func(tier string) {
 			runtime.GOMAXPROCS(1)
+			runtime.MemProfileRate = 0
+			if g := os.Getenv("C06_GC"); g != "" {
+				n, _ := strconv.Atoi(g)
+				debug.SetGCPercent(n)
+			}
 			initEpi()
 		},
 		Families: func(tier string) []*core.Family {
